@@ -168,6 +168,10 @@ class VerifyingKey(object):
         self = cls(_error__please_use_generate=True)
         if isinstance(curve.curve, CurveEdTw):
             raise ValueError("Method incompatible with Edwards curves")
+        if point.curve() != curve.curve:
+            raise MalformedPointError(
+                "Point is defined over a different curve"
+            )
         if not isinstance(point, ellipticcurve.PointJacobi):
             point = ellipticcurve.PointJacobi.from_affine(point)
         self.curve = curve
